@@ -25,7 +25,9 @@ Print Assumptions C01_break_guard.
 
 (* Statement-level SIMULATION (reject-or-preserve, statement layer).  For every program that
    [transl] accepts and that lies inside the executable guard [guard_ok]
-     - every variable is first assigned at top level of the setup part (so it is a C global),
+     - every variable is first assigned at top level of the setup part (so it is a C global), or at
+       top level of the `while True:` body before any read of it in that body (so it is a local of
+       loop() that every pass assigns before using it),
      - every later assignment / augmented assignment keeps the type label of the first one,
      - no tuple assignment,
      - range() bounds are int-labelled, do not read the loop variable nor any name the loop
@@ -57,6 +59,15 @@ Example C01_stmt_preserve_nonvacuous :
             cprog_exec demo_sem demo_aug (info_of demo) 30 4 true c = Some demo_trace.
 Proof. exact demo_ok. Qed.
 Print Assumptions C01_stmt_preserve_nonvacuous.
+
+(* ... and by a program whose main loop declares a local (first assignment at body level). *)
+Example C01_stmt_preserve_nonvacuous_local :
+  guard_ok demo_local = true /\ sem_facts demo_local_sem demo_aug demo_local /\
+  pprog_exec demo_local_sem demo_aug 30 3 demo_local = Some demo_local_trace /\
+  exists c, transl demo_local = Some c /\
+            cprog_exec demo_local_sem demo_aug (info_of demo_local) 30 3 true c = Some demo_local_trace.
+Proof. exact demo_local_ok. Qed.
+Print Assumptions C01_stmt_preserve_nonvacuous_local.
 
 (* The guard clause on range() bounds is necessary: `n = 3; for i in range(n): n = n - 1;
    mon.write(i)` is accepted, Python writes 0 1 2, the C for-loop (bound re-evaluated before
